@@ -134,6 +134,61 @@ def inject_overlap(sc):
         return
 
 
+def inject_widened_range(sc):
+    """Rewrite one note so that a session's two separate ranges become ONE range that also covers the lines in between, which the
+    commit did not add (the cumulative notes written by the full replay of a rebase have this shape): accepted lines are still the
+    lines the commit added."""
+    from .. import notes as N
+    mapping = sc.nr.mapping()
+    for sha in sc.w.ogit("rev-list", "HEAD").split():
+        ents = mapping.get(sha)
+        if not ents or len(sc.w.ogit("rev-list", "--parents", "-n1", sha).split()) != 2:
+            continue
+        text = sc.nr.blob(ents[0][0])
+        try:
+            note = N.parse_note(text)
+        except Exception:
+            continue
+        added = sc.diff_added(sha)
+        for f, d in note.files.items():
+            if f in IGNORED or " " in f or "\t" in f or '"' in f:
+                continue
+            nl = len(sc.show_lines(sha, f) or [])
+            for h, ls in d.items():
+                mine = sorted(i for i in ls if i in added.get(f, ()))
+                gaps = [(a, b) for a, b in zip(mine, mine[1:]) if b - a > 1 and any(i not in added.get(f, ()) for i in range(a + 1, b))
+                        and not any(i in l2 for h2, l2 in d.items() if h2 != h for i in range(a, b + 1))]
+                if not gaps or max(ls) > nl:
+                    continue
+                a, b = gaps[0]
+                new_ls = sorted(set(ls) | set(range(a, b + 1)))
+                # re-serialise this entry's ranges
+                parts, i = [], 0
+                while i < len(new_ls):
+                    j = i
+                    while j + 1 < len(new_ls) and new_ls[j + 1] == new_ls[j] + 1:
+                        j += 1
+                    parts.append(str(new_ls[i]) if i == j else "%d-%d" % (new_ls[i], new_ls[j]))
+                    i = j + 1
+                head, _, meta = text.partition("\n---\n")
+                out, cur = [], None
+                for ln in head.split("\n"):
+                    if not ln.startswith("  "):
+                        cur = ln
+                        out.append(ln)
+                    elif cur == f and ln.startswith("  " + h + " "):
+                        out.append("  %s %s" % (h, ",".join(parts)))
+                    else:
+                        out.append(ln)
+                new = "\n".join(out) + "\n---\n" + meta
+                sc.w.ogit("-c", "user.name=inject", "-c", "user.email=i@x", "notes", "--ref=ai", "add", "-f", "-F", "-", sha, input=new.encode(), check=True)
+                sc.nr._blob.clear()
+                sc.stats["widened_range_injected"] += 1
+                sc.ops.append("inject-widened-range")
+                return True
+    return False
+
+
 def run_case(case):
     seed, index, flags_off = case["seed"], case["index"], case.get("flags_off", [])
     prng = random.Random("%s:C19p:%s" % (seed, index))
@@ -221,6 +276,8 @@ def run_case(case):
             sc.commit_all("final")
             if rng.random() < 0.4 and sc.profile.get("overlap_injection", True):
                 inject_overlap(sc)
+            elif rng.random() < 0.6:
+                inject_widened_range(sc)
             for sha in C.all_branch_commits(sc):
                 info = check_commit_stats(sc, sha)
                 if info:
